@@ -92,7 +92,8 @@ def _deductive_task(arg) -> dict:
                     if rfun is not None:
                         regions.append((k, rfun))
             # obligations with a listed finding: one e-matching attempt as stated, then the carve-out (DESIGN 8.2)
-            discharge(ob, budget_ms=budget, inputs=inputs, want_smt2=(tier == 'thorough'), try_mbqi=not regions)
+            # (as stated: a short attempt suffices - if the defect were gone the obligation would discharge in milliseconds like its neighbours)
+            discharge(ob, budget_ms=(budget if not regions else max(1000, budget // 4)), inputs=inputs, want_smt2=(tier == 'thorough'), try_mbqi=not regions)
             if ob.status == 'undecided' and not regions and ob.seconds * 1000 >= budget * 0.9:
                 discharge(ob, budget_ms=budget * 10, inputs=inputs)   # one retry with 10x budget (DESIGN 9.5)
             d = {'name': ob.name, 'kind': ob.kind, 'scenario': ob.scenario, 'path': list(ob.path), 'status': ob.status,
